@@ -245,12 +245,11 @@ def run(ctx):
         q = [(b, t) for b, t in f.calls() if "QSelf" in (mir.callee_info(t) or {}).get("resolved_with_args", "") or "QSelf" in ((mir.callee_info(t) or {}).get("self_ty") or "")]
         ctx.ob("C19.G.qself-shape", f.key, "one qself walk", len(q) == 1, "%d" % len(q))
         for b, t in q:
-            ctx.requires("C19.G.qself-only-when-asked", f, b, "self.qself walk", [r"include_type_path_qself\(a2\)=True"])
+            ctx.requires("C19.G.qself-only-when-asked", f, b, "self.qself walk", [r"^discr\(a2\.purpose\)=Declare$"])
     f = ctx.fn("darling_core::usage::options::Options::include_type_path_qself")
     if f:
-        rs = [e for _, e in ctx.ret_exprs(f)]
-        ok = len(rs) == 1 and re.search(r"PartialEq>::eq\(self\.purpose, .*\)$", rs[0]) is not None
-        ctx.ob("C19.G.qself-iff-declare", f.key, "self.purpose == Purpose::Declare", ok, "%s" % rs)
+        rs = ctx.true_conditions(f)
+        ctx.ob("C19.G.qself-iff-declare", f.key, "self.purpose == Purpose::Declare", rs == [{"discr(self.purpose)=Declare"}], "true under %s" % rs)
     # union over collections
     for key in ("darling_core::usage::type_params::<impl darling_core::usage::type_params::CollectTypeParams for T>::collect_type_params",):
         cands = ctx.fns_matching(r"^<T as darling_core::usage::type_params::CollectTypeParams>::collect_type_params$")
